@@ -2,7 +2,7 @@
 import ast
 
 from .. import legacy
-from ..report import AnalysisError, norm
+from ..report import borrow, AnalysisError, norm
 from ..srcmodel import own_nodes
 from ..terms import Resolver, alternatives, show, walk
 
@@ -42,6 +42,12 @@ def run(rep, ctx):
     rep.run_rule("C16.R5", "the rewritten spelling is what gets stored / cached", r5_stored, ctx)
     from . import c19
     from ..report import borrow
+    from . import c07
+    rep.rule("C16.R7", "a request written with a legacy spelling is interned under its own (rewritten) unit, category and caption (shared with C07.R5)")
+    try:
+        borrow(rep, c07.r5_interning, ctx, "C07.R5", "C16.R7")
+    except AnalysisError as e:
+        rep.error("C16.R7", str(e))
     rep.rule("C16.R6", "a legacy spelling resolves its default category exactly like the current spelling (GetDefaultCategory's resolution order holds on the legacy path too; shared with C19.R1b)")
     try:
         borrow(rep, c19.r1b_mechanism, ctx, "C19.R1b", "C16.R6")
